@@ -54,6 +54,7 @@ int vs_self(void) { return 0; }
 int vs_active(void) { return 1; }
 int vs_thread_count(void) { return NTH + 1; }
 int vs_live_threads(void) { return 1; }
+int vs_blocked_on_cond(int tid) { (void)tid; return 1; }
 unsigned vs_sleeps_of(int t) { (void)t; return 1000000; }
 unsigned vs_steps(void) { return 0; }
 int vs_choose(int n) { (void)n; return (int)vs_param("choice", 0); }
